@@ -1,6 +1,7 @@
 """A utility class used to manage Zorg files lives here."""
 
 from pathlib import Path
+import re
 from typing import NewType, Optional
 
 from zorg.domain.models import Note
@@ -60,8 +61,13 @@ class FileManager:
         """Removes {note} from its last known *.zo file."""
         zpage = c.prepend_zdir(self._zdir, note.file_path)
         assert note.zid is not None
+        # Matches the first line of the note that OWNS this ZID (as opposed to
+        # lines that merely mention it).
+        first_line_regex = re.compile(
+            rf"^[-ox~<>] +(P[0-9] +)?([0-9]{{6}} +)?{re.escape(note.zid)}( |$)"
+        )
         for i, line in enumerate(zpage.read_text().split("\n")):
-            if f" {note.zid} " in line:
+            if first_line_regex.match(line):
                 start_idx = i
                 break
         else:
